@@ -264,13 +264,16 @@ func (h *H) onStart(w *W, jr *JobRec, s int) {
 			}
 		}
 		for _, o := range h.Jobs {
-			if o == jr || o.Q != jr.Q || !o.Accepted || o.AddRet == 0 || o.AddRet >= t || len(o.Starts) > 0 || o.anyClose() || h.maybePurged(o) {
+			if o == jr || o.Q != jr.Q || !o.Accepted || len(o.Starts) > 0 || o.anyClose() || h.maybePurged(o) {
+				continue
+			}
+			if (o.AddRet == 0 || o.AddRet >= t) && !batchBefore(o, jr) {
 				continue
 			}
 			if o.Batch != nil && !h.batchSure(o) {
 				continue
 			}
-			if o.Prio < jr.Prio || (o.Prio == jr.Prio && o.AddRet < jr.AddCall) {
+			if o.Prio < jr.Prio || (o.Prio == jr.Prio && (o.AddRet < jr.AddCall || batchBefore(o, jr))) {
 				h.viol("C04", "C04.priority", "a job was dispatched while a pending job of the same queue had a smaller priority number or, at equal priority, had been accepted earlier")
 			}
 		}
@@ -278,7 +281,7 @@ func (h *H) onStart(w *W, jr *JobRec, s int) {
 	// C04 (concurrency 1, FIFO): a job whose Add returned before this job's Add was called must have started first
 	if jr.Q != nil && !jr.Q.Kind.IsPrio() && len(w.Qs) == 1 && len(h.Ws) == 1 && jr.Accepted {
 		for _, o := range h.Jobs {
-			if o == jr || o.Q != jr.Q || !o.Accepted || o.AddRet >= jr.AddCall || o.AddRet == 0 {
+			if o == jr || o.Q != jr.Q || !o.Accepted || ((o.AddRet >= jr.AddCall || o.AddRet == 0) && !batchBefore(o, jr)) {
 				continue
 			}
 			if len(o.Starts) == 0 && !o.anyClose() && !h.maybePurged(o) && w.maxLimitEver() == 1 {
@@ -286,6 +289,22 @@ func (h *H) onStart(w *W, jr *JobRec, s int) {
 			}
 		}
 	}
+}
+
+// batchBefore: o and jr are items of one AddAll and o comes first in the slice (items are accepted in slice order).
+func batchBefore(o, jr *JobRec) bool {
+	if o.Batch == nil || o.Batch != jr.Batch {
+		return false
+	}
+	for _, t := range o.Batch.Tags {
+		if t == o.Tag {
+			return true
+		}
+		if t == jr.Tag {
+			return false
+		}
+	}
+	return false
 }
 
 // barrierApplies: PauseAndWait/Stop only count when the worker was not initiated (err nil on Initiated is impossible).
@@ -816,7 +835,7 @@ func (h *H) checkOutcome(jr *JobRec, v int, err error) {
 			h.viol("C07", "C07.outcome", "handle of a job returning an error got "+errStr(err))
 		}
 	case BPanic:
-		if err == nil || !strings.Contains(err.Error(), fmt.Sprintf("boom%d", jr.Tag)) {
+		if err == nil || !strings.Contains(err.Error(), panicText(jr.Tag)) {
 			h.viol("C07", "C07.outcome", "handle of a panicking job got "+errStr(err))
 		}
 	}
